@@ -22,6 +22,13 @@ RULE = ("a case = a class table in DEFINITION ORDER (1-3 hierarchies of depth <=
         "_type_, non-ancestor load class). Non-trivial = loaded through a strict ancestor in a family of >= 3 classes, or an "
         "instance with a nested dataclass node; distinct by canonical JSON of the case.")
 ASSUMPTIONS = [
+    "not generated / not modelled: mixin (multiple) inheritance where the base's fields are not a prefix of the subclass's "
+    "(class M1(M0, Mix) works in the real code; the theorems' `Derived.names` excludes it); function-local classes with "
+    "save_dc_types (to_dict writes no _type_ for them, serializable.py:731, so they fall back to field-set matching)",
+    "`dict-unchanged` (from_dict leaves the caller's dict alone) is demanded although the property text does not state it; it is "
+    "what makes clause 4 hold for every later load of the same dict",
+    "loading through `Serializable` itself: candidates outside the class table (simple_parsing's own subclasses) are assumed not "
+    "to have every key of the dict; the adapter collects garbage first and reports any such class (tag foreign-candidate)",
     "iteration order of the set returned by all_subclasses() is read from the running interpreter and passed to the model as the "
     "permutation pi (the theorems quantify over every pi)",
     "dataclasses: field inheritance order, __init__ keyword handling, __eq__; importlib resolves a module registered in sys.modules",
@@ -55,8 +62,13 @@ def all_fields(classes, name):
     chain = [name] + ancestors(classes, name)
     m = by_name(classes)
     out = []
-    for n in reversed(chain):
-        out += m[n]["fields"]
+    for n in reversed(chain):       # dataclasses: an inherited field that is redeclared keeps its position, new ones are appended
+        for f in m[n]["fields"]:
+            idx = [i for i, g in enumerate(out) if g["name"] == f["name"]]
+            if idx:
+                out[idx[0]] = f
+            else:
+                out.append(f)
     return out
 
 
@@ -159,7 +171,11 @@ def gen_tree(rng, prefix, lower, allow_nested):
         return out
 
     FORCE_NESTED[0] = bool(allow_nested and lower and rng.random() < 0.8)
-    root = {"name": f"{prefix}0", "parent": None, "dis": root_dis, "fields": own_fields([], rng.choice([1, 1, 2]), True)}
+    frozen = rng.random() < 0.12      # the whole hierarchy is @dataclass(frozen=True) on FrozenSerializable
+    n_root = rng.choice([0, 1, 1, 1, 2, 2]) if not FORCE_NESTED[0] else rng.choice([1, 1, 2])   # 0: abstract base `pass`
+    root = {"name": f"{prefix}0", "parent": None, "dis": root_dis, "fields": own_fields([], n_root, True)}
+    if frozen:
+        root["frozen"] = True
     classes.append(root)
     ALL[0] = ALL[0] + [root]
     level = [root]
@@ -186,8 +202,14 @@ def gen_tree(rng, prefix, lower, allow_nested):
                     own = []
                 else:
                     own = own_fields(inh, rng.choice([1, 1, 2]), False)
+                    inh_f = [f for f in all_fields(ALL[0], p["name"]) if f["ty"]["k"] == "int" and f["default"]["kind"] == "int"]
+                    if inh_f and rng.random() < 0.12:   # REDECLARE an inherited field (new default), before or after the new ones
+                        g = dict(rng.choice(inh_f), default={"kind": "int", "v": rng.randrange(10, 19)})
+                        own.insert(rng.randrange(len(own) + 1), g)
                 dis = None if rng.random() < 0.85 else rng.choice([True, False])
                 c = {"name": f"{prefix}{len(classes)}", "parent": p["name"], "dis": dis, "fields": own}
+                if frozen:
+                    c["frozen"] = True
                 classes.append(c)
                 ALL[0] = ALL[0] + [c]
                 sibs.append(c)
@@ -312,7 +334,8 @@ def gen(rng, tier):
         for _ in range(3):
             # the class we load through, and the (derived) class of the instance
             tops = [c["name"] for c in table if c["parent"] is None]
-            base = rng.choice([tops[-1]] * 4 + tops * 2 + roots)
+            nonleaf = [c["name"] for c in table if strict_desc(table, c["name"])]
+            base = rng.choice([tops[-1]] * 4 + tops * 2 + nonleaf * 3 + roots)
             fam = family(table, base)
             dcls = rng.choice(fam[1:] * 3 + fam) if len(fam) > 1 else base
             inst = gen_inst(rng, table, dcls)
@@ -321,6 +344,16 @@ def gen(rng, tier):
             for _ in range(2):  # same content, two definition orders
                 yield {"op": "sub.load", "case": {"classes": shuffle_definition_order(rng, table), "base": base, "inst": inst,
                                                   "drop": drop, "save": save}}
+        # loading through `Serializable` itself ("find the right class from the keys"): the table lists it as the parent
+        # of its non-frozen roots
+        plain_classes = [c["name"] for c in table if not c.get("frozen")]
+        if plain_classes and rng.random() < 0.6:
+            mtable = [{"name": "Serializable", "parent": None, "dis": None, "fields": [], "mixin": True}] + [
+                dict(c, parent="Serializable") if (c["parent"] is None and not c.get("frozen")) else c for c in table]
+            for _ in range(2):
+                yield {"op": "sub.load", "case": {"classes": shuffle_definition_order(rng, mtable), "base": "Serializable",
+                                                  "inst": gen_inst(rng, mtable, rng.choice(plain_classes)),
+                                                  "drop": rng.choice([None, None, False, True]), "save": rng.random() < 0.2}}
         # process history: classes defined after earlier loads
         for _ in range(2):
             h = gen_history(rng, table)
@@ -358,11 +391,13 @@ _COUNTER = itertools.count()
 
 def _source(classes, header=True):
     lines = ["from dataclasses import dataclass, field", "from typing import Dict, List, Optional",
-             "from simple_parsing.helpers import Serializable", "", ""] if header else []
+             "from simple_parsing.helpers import FrozenSerializable, Serializable", "", ""] if header else []
     for c in classes:
-        bases = c["parent"] or "Serializable"
+        if c.get("mixin"):      # the entry stands for simple_parsing's own `Serializable`
+            continue
+        bases = c["parent"] or ("FrozenSerializable" if c.get("frozen") else "Serializable")
         kw = "" if c["dis"] is None else f", decode_into_subclasses={c['dis']}"
-        lines.append("@dataclass")
+        lines.append("@dataclass(frozen=True)" if c.get("frozen") else "@dataclass")
         lines.append(f"class {c['name']}({bases}{kw}):")
         if not c["fields"]:
             lines.append("    pass")
@@ -412,7 +447,8 @@ class _World:
         finally:
             sys.dont_write_bytecode = old
         self.mod = mod
-        self.cls = {c["name"]: getattr(mod, c["name"]) for c in classes}
+        self.cls = {c["name"]: getattr(mod, "Serializable" if c.get("mixin") else c["name"]) for c in classes}
+        self.mixin = next((c["name"] for c in classes if c.get("mixin")), None)
 
     def define_rest(self):
         """process history: further class statements executed in the SAME module after loads have already happened"""
@@ -431,7 +467,7 @@ class _World:
         """isolation between cases: take this case's classes out of the library's process-wide registries again
         (SerializableMixin.subclasses, the decoding table, the `encode` singledispatch registry). Without this every later
         class definition / first encode of a type scans all classes of all earlier cases (quadratic run time)."""
-        mine = set(self.cls.values())
+        mine = {k for n, k in self.cls.items() if n != self.mixin}
         try:
             from simple_parsing.helpers.serialization import decoding, encoding
             from simple_parsing.helpers.serialization.serializable import SerializableMixin
@@ -472,7 +508,7 @@ class _World:
             obj = C(**{k: x for k, x in vals.items() if k in init})
             for k, x in vals.items():
                 if k not in init:
-                    setattr(obj, k, x)
+                    object.__setattr__(obj, k, x)   # (also for frozen dataclasses)
             return obj
         raise ValueError(t)
 
@@ -515,9 +551,12 @@ class _World:
         from simple_parsing.utils import all_subclasses
 
         rows, pi = [], {}
+        table = set(self.cls.values())
         for c in classes:
             C = self.cls[c["name"]]
-            order = [s.__name__ for s in all_subclasses(C)]
+            # (`Serializable` itself also has subclasses outside the table: simple_parsing's own; they are not candidates of
+            # the model and are counted in `foreign`)
+            order = [s.__name__ for s in all_subclasses(C) if s in table or c["name"] != self.mixin]
             pi[c["name"]] = order
             rows.append({"name": c["name"], "fields": [f.name for f in dataclasses.fields(C)],
                          "init": list(get_init_fields(C).keys()), "dis": C.decode_into_subclasses, "desc": sorted(order)})
@@ -554,6 +593,33 @@ def _reload_drops(c):
     return [c["drop"]]
 
 
+def _purge():
+    """drop the classes of earlier cases for good (typing's caches, cyclic garbage) so that the live subclass set of
+    `Serializable` — and with it the set's iteration order — is the same when it is observed and when it is used"""
+    import gc
+    import typing
+
+    for clear in getattr(typing, "_cleanups", []):
+        clear()
+    gc.collect()
+
+
+def _foreign_candidates(w, d):
+    """loading through `Serializable` itself considers EVERY live Serializable subclass of the process. Classes of earlier
+    cases are unreachable by now (registries restored, modules dropped) but may await garbage collection or sit in typing's
+    caches; collect them, then name the live classes outside the table that have every key of the dict (none expected)"""
+    import dataclasses
+
+    from simple_parsing.utils import all_subclasses
+
+    table = set(w.cls.values())
+    keys = {k for k in d if k != "_type_"}
+    if not keys:
+        return []
+    return sorted(k.__name__ for k in all_subclasses(w.cls[w.mixin]) if k not in table and dataclasses.is_dataclass(k)
+                  and keys <= {f.name for f in dataclasses.fields(k)})
+
+
 def _load_repeatedly(w, c, orig):
     """to_dict once; snapshot; load the same dict object 2-3 times; after each load compare the dict with the snapshot"""
     import copy
@@ -561,6 +627,7 @@ def _load_repeatedly(w, c, orig):
     Base = w.cls[c["base"]]
     d = orig.to_dict(save_dc_types=c["save"])
     snap = w.canon_dict(copy.deepcopy(d))
+    foreign = _foreign_candidates(w, d) if c["base"] == w.mixin else []
     out, val = _outcome(lambda: Base.from_dict(d, drop_extra_fields=c["drop"]))
     obs = {"dict": snap, "out": out, "orig_ok": sp.cv(orig) == c["inst"], "dict_unchanged": w.canon_dict(d) == snap}
     if not obs["dict_unchanged"]:
@@ -568,6 +635,8 @@ def _load_repeatedly(w, c, orig):
     if val is not None:
         obs["equal"] = bool(val == orig)
         obs["same_type"] = type(val) is type(orig)
+    if foreign:
+        obs["foreign"] = foreign
     obs["reloads"] = []
     for dr in _reload_drops(c):
         o2, v2 = _outcome(lambda: Base.from_dict(d, drop_extra_fields=dr))
@@ -585,6 +654,8 @@ def impl(case):
     op, c = case["op"], case["case"]
     if op == "sub.history":
         return _impl_history(c)
+    if any(x.get("mixin") for x in c["classes"]):
+        _purge()
     w = _World(c["classes"])
     try:
         rows, pi = w.resolve_rows(c["classes"])
@@ -691,6 +762,14 @@ def _at(d, path):
     return cur
 
 
+def _top_mode(classes, base, drop):
+    """the mode of the call itself: the explicit drop_extra_fields, else the class flag; `Serializable` itself always
+    decodes into subclasses when nothing is said (serializable.py:825-831)"""
+    if drop is None and by_name(classes)[base].get("mixin"):
+        return "keep"
+    return _mode(drop, eff_dis(classes, base))
+
+
 def _mode(passed, dis):
     """passed: drop_extra_fields explicitly handed to this load (None/True/False); dis: decode_into_subclasses of the class"""
     by_cls = "keep" if dis else "drop"
@@ -699,52 +778,60 @@ def _mode(passed, dis):
     return "drop" if passed else "keep"
 
 
-def check_node(classes, orig, res, declared, mode, save, in_container, path, sdict, fails):
+def _class_ok(classes, mode, D, R, declared):
+    """does the class R that came back for a D loaded through `declared` obey the clause of `mode` (keep | drop)?
+    returns (ok, clause name)"""
+    if mode == "drop":
+        return R == declared, "drop-base"
+    keys = set(field_names(classes, D))
+    if identified(classes, D, declared):
+        return R == D, "identified"
+    return (R in family(classes, declared) and keys <= set(field_names(classes, R))), "superset"
+
+
+def check_node(classes, orig, res, declared, mode, code_mode, top_drop, save, in_container, path, sdict, fails, kind="top"):
     """orig: cv of the original node; res: cv of what came back at the same place; declared: the class this node is loaded
-    through; mode: keep | drop | either (see oracle()); in_container: the node is an element of a List/Dict field or lies
-    below one (to_dict encodes such elements with their own to_dict(), i.e. without save_dc_types); appends failures"""
+    through; mode: keep | drop — what the property demands here: the explicit drop_extra_fields of the call if one was given,
+    else the decode_into_subclasses flag of `declared`; code_mode: what decode_field actually forwards to this node (the
+    CONTAINER's resolved value for a dataclass-annotated field, the item class's own flag for Optional/List/Dict items — the
+    open finding C14-nested-drop-forwarding where the two differ); in_container: the node is an element of a List/Dict
+    field or lies below one (to_dict encodes such elements with their own to_dict(), i.e. without save_dc_types)"""
     if orig["t"] != "inst":
         return
     D = orig["cls"]
-    sig = {"path": list(path), "orig": D, "through": declared, "mode": mode, "in_container": in_container,
+    sig = {"path": list(path), "orig": D, "through": declared, "mode": mode, "code_mode": code_mode, "kind": kind,
+           "in_container": in_container,
            "type_key_written": isinstance(_at(sdict, path), dict) and "_type_" in _at(sdict, path)}
 
-    def fail(clause, detail):
-        fails.append(dict(sig, clause=clause, detail=detail))
+    def fail(clause, detail, **kw):
+        fails.append(dict(sig, clause=clause, detail=detail, **kw))
 
     if res is None or res.get("t") != "inst":
         # nothing (or the undecoded raw dict that Optional's try_functions falls back to) came back: an exception was raised
-        # somewhere in this subtree
-        fails.append(dict(sig, clause="recover",
-                          detail=f"at {path}: no instance came back for a {D} loaded through {declared}: {str(res)[:120]}"))
+        # somewhere in this subtree (finding C14-frozen-noninit-setattr when a frozen class with an init=False field is in it)
+        fail("recover", f"at {path}: no instance came back for a {D} loaded through {declared}: {str(res)[:120]}",
+             frozen_noninit=any(_frozen_noninit(classes, n["cls"]) for n in _subnodes(orig)))
         return
     R = res["cls"]
+    if R not in by_name(classes):
+        fail("recover", f"at {path}: {D} loaded through {declared} came back as {R}, a class that is not in the hierarchy")
+        return
     keys = set(field_names(classes, D))
-    exact_demanded = False
     if save:
-        exact_demanded = True
-        if R != D and not (mode == "drop" and R == declared and not in_container and not path):
+        if R != D:   # "regardless of field sets" — and of drop_extra_fields: `_type_` is looked at first
             fail("dc-types", f"at {path}: save_dc_types=True but {D} came back as {R}")
     else:
-        ok_drop = R == declared
-        ok_keep = (R == D) if identified(classes, D, declared) else (R in family(classes, declared)
-                                                                    and keys <= set(field_names(classes, R)))
-        if mode == "drop":
-            if not ok_drop:
-                fail("drop-base", f"at {path}: dropping extra fields, loading {D} through {declared} gave {R}")
-        elif mode == "keep":
-            exact_demanded = identified(classes, D, declared)
-            if not ok_keep:
-                fail("identified" if exact_demanded else "superset",
-                     f"at {path}: {D} (fields {sorted(keys)}) loaded through {declared} came back as {R} "
-                     f"(fields {field_names(classes, R)})")
-        else:
-            if not (ok_drop or ok_keep):
-                fail("either", f"at {path}: {D} loaded through {declared} came back as {R}")
+        ok, clause = _class_ok(classes, mode, D, R, declared)
+        if not ok:
+            forwarded = code_mode != mode and _class_ok(classes, code_mode, D, R, declared)[0]
+            fail(clause, f"at {path}: {D} (fields {sorted(keys)}) loaded through {declared} "
+                         f"({'dropping extra fields' if mode == 'drop' else 'decoding into subclasses'}) came back as {R} "
+                         f"(fields {field_names(classes, R)})", forwarding=bool(forwarded))
     # descend on the fields both classes have with the same annotation
     rfields = {f["name"]: f for f in all_fields(classes, R)}
     rvals = dict((k, v) for k, v in res["v"])
-    known = set(field_names(classes, declared))
+    # every serialized value that the class that came back can hold must be kept (same field set ⇒ all of them)
+    values_demanded = keys <= set(rfields) or R == declared
     for f in all_fields(classes, D):
         n = f["name"]
         if n not in rfields or rfields[n]["ty"] != f["ty"]:
@@ -752,29 +839,34 @@ def check_node(classes, orig, res, declared, mode, save, in_container, path, sdi
         ov, rv = dict((k, v) for k, v in orig["v"])[n], rvals.get(n)
         k = f["ty"]["k"]
         if k == "int":
-            demanded = (exact_demanded and R == D) or (mode == "drop" and not save and R == declared and n in known)
-            if demanded and ov != rv:
+            if values_demanded and ov != rv:
                 fail("value", f"at {path + [n]}: value {ov} came back as {rv}")
             continue
         c = f["ty"]["cls"]
         dis = eff_dis(classes, c)
-        if k == "dc":
-            # the container's own resolved choice is forwarded to dataclass-annotated fields; where that and the field
-            # class's decode_into_subclasses disagree the text does not say which wins
-            m = mode if mode == _mode(None, dis) else "either"
-            check_node(classes, ov, rv, c, m, save, in_container, path + [n], sdict, fails)
-        elif k == "opt":
-            check_node(classes, ov, rv, c, _mode(None, dis), save, in_container, path + [n], sdict, fails)
+        by_flag = _mode(None, dis)
+        if save:
+            want, does = by_flag, by_flag        # (matters only below containers, where no `_type_` is written: D16)
+        else:
+            want = _mode(top_drop, dis)
+            does = code_mode if k == "dc" else by_flag
+        if k in ("dc", "opt"):
+            check_node(classes, ov, rv, c, want, does, top_drop, save, in_container, path + [n], sdict, fails, kind=k)
         elif k == "list":
             items = rv["v"] if isinstance(rv, dict) and rv.get("t") == "list" else []
             for i, x in enumerate(ov["v"]):
-                check_node(classes, x, items[i] if i < len(items) else None, c, _mode(None, dis), save, True,
-                           path + [n, i], sdict, fails)
+                check_node(classes, x, items[i] if i < len(items) else None, c, want, does, top_drop, save, True,
+                           path + [n, i], sdict, fails, kind=k)
         elif k == "dict":
             items = {kk["v"]: x for kk, x in rv["v"]} if isinstance(rv, dict) and rv.get("t") == "dict" else {}
             for kk, x in ov["v"]:
-                check_node(classes, x, items.get(kk["v"]), c, _mode(None, dis), save, True, path + [n, kk["v"]], sdict,
-                           fails)
+                check_node(classes, x, items.get(kk["v"]), c, want, does, top_drop, save, True, path + [n, kk["v"]], sdict,
+                           fails, kind=k)
+
+
+def _frozen_noninit(classes, name):
+    """a frozen dataclass with an init=False field: from_dict's setattr raises FrozenInstanceError"""
+    return bool(by_name(classes)[name].get("frozen")) and any(not f["init"] for f in all_fields(classes, name))
 
 
 def _walk(classes, v, declared, in_container):
@@ -837,14 +929,15 @@ def _oracle(case, obs):
             for i, r in enumerate(obs.get("reloads", []))]
         for ld in loads:
             lf = []
-            mode = _mode(ld["drop"], eff_dis(classes, base))
+            mode = _top_mode(classes, base, ld["drop"])
             o = ld["out"]
             if o["o"] != "ok":
                 lf.append({"clause": "raise", "detail": f"loading a {inst['cls']} through {base} raised {o.get('exc')}",
                            "path": [], "orig": inst["cls"], "through": base, "mode": mode, "in_container": False,
-                           "exc": o.get("exc")})
+                           "exc": o.get("exc"),
+                           "frozen_noninit": any(_frozen_noninit(classes, n["cls"]) for n in _subnodes(inst))})
             else:
-                check_node(classes, inst, o["v"], base, mode, save, False, [], obs["dict"], lf)
+                check_node(classes, inst, o["v"], base, mode, mode, ld["drop"], save, False, [], obs["dict"], lf)
                 if not lf and o["v"] == inst and not ld.get("equal"):
                     lf.append({"clause": "equal", "detail": "same class and field values but the result is not == the original"})
             for f in lf:
@@ -869,7 +962,7 @@ def _oracle(case, obs):
         keys = [k for k, _ in d["v"]]
         if "_type_" in keys:
             return fails
-        mode = _mode(c["drop"], eff_dis(classes, base))
+        mode = _top_mode(classes, base, c["drop"])
         if out["o"] == "ok" and out["v"].get("t") == "inst":
             R = out["v"]["cls"]
             if mode == "drop" and R != base:
@@ -941,7 +1034,33 @@ def tags(case, obs):
         t += [f"fieldkind:{k}" for k in sorted(kinds)]
         if any(not f["init"] for cl in c["classes"] for f in cl["fields"]):
             t.append("has-noninit")
-    return t
+        cl, base, D = c["classes"], c["base"], inst["cls"]
+        t.append("mode:" + _top_mode(cl, base, c["drop"]))
+        t.append("dist:%d" % (ancestors(cl, D).index(base) + 1 if base in ancestors(cl, D) else 0))
+        fam = family(cl, base)
+        t.append("fam:" + ("1" if len(fam) == 1 else "2-3" if len(fam) <= 3 else "4+"))
+        t.append("base:" + ("Serializable" if by_name(cl)[base].get("mixin") else
+                            "root" if by_name(cl)[base]["parent"] in (None, "Serializable") else "mid"))
+        if by_name(cl)[D].get("frozen"):
+            t.append("frozen")
+        if any(len({f["name"] for f in x["fields"]} & set(field_names(cl, x["parent"]))) for x in cl if x["parent"]):
+            t.append("redeclared-field")
+        if not by_name(cl)[base]["fields"] and by_name(cl)[base]["parent"] is None:
+            t.append("fieldless-root")
+        if D != base and not c["save"] and _top_mode(cl, base, c["drop"]) == "keep":
+            kd = set(field_names(cl, D))
+            others = [set(field_names(cl, o)) for o in fam[1:] if o != D]
+            t.append("lattice:" + ("parent-same" if kd == set(field_names(cl, base)) else
+                                   "same" if any(o == kd for o in others) else
+                                   "nested" if any(o > kd for o in others) else
+                                   "overlap" if any(o & kd - set(field_names(cl, base)) for o in others) else "alone"))
+        for f in oracle(case, obs):
+            for fid, pred in FINDINGS.items():
+                if pred(case, obs, f):
+                    t.append("finding:" + fid)
+        if obs.get("foreign"):
+            t.append("foreign-candidate")
+    return sorted(set(t))
 
 
 # ------------------------------------------------------------------------------------------------
@@ -1044,20 +1163,48 @@ def _sig_d16(case, obs, fail):
             and fail.get("in_container") is True and fail.get("type_key_written") is False)
 
 
+def _sig_frozen(case, obs, fail):
+    """the load raised FrozenInstanceError (or, below an Optional field, fell back to the raw dict) and the instance tree
+    contains a node whose class is a frozen dataclass with an init=False field (from_dict uses setattr for those)"""
+    if case["op"] not in ("sub.load", "sub.history") or not fail.get("frozen_noninit"):
+        return False
+    if fail.get("clause") == "raise":
+        return fail.get("exc") == "FrozenInstanceError"
+    return fail.get("clause") == "recover"
+
+
+def _sig_forwarding(case, obs, fail):
+    """a NESTED node without `_type_` (save_dc_types off) whose class obeys what decode_field forwards — the container's
+    resolved drop_extra_fields for a dataclass-annotated field, the item class's own flag for Optional/List/Dict items — and
+    not what the property demands there (explicit argument of the call, else the field class's decode_into_subclasses)"""
+    return (case["op"] in ("sub.load", "sub.history") and not case["case"]["save"] and fail.get("forwarding") is True
+            and fail.get("clause") in ("drop-base", "identified", "superset") and bool(fail.get("path"))
+            and fail.get("kind") in ("dc", "opt", "list", "dict") and fail.get("mode") != fail.get("code_mode"))
+
+
 FINDINGS = {
     "C14-D16-no-type-key-in-containers": _sig_d16,
+    "C14-frozen-noninit-setattr": _sig_frozen,
+    "C14-nested-drop-forwarding": _sig_forwarding,
 }
 
 MANIFEST = {
-    "text": ("Proof, partial with one named gap. Lean theorems over the model of from_dict/to_dict: the sorted-by-size + "
-             "first-superset choice (all fields, init=False included) returns exactly the class whose field set identifies it, for EVERY iteration order of the "
-             "subclass set and hence every definition order (cardinality argument, any hierarchy size); otherwise the chosen "
-             "class has every serialized field; drop_extra_fields=True gives exactly the base with unknown keys dropped; with "
-             "save_dc_types the exact class is restored at every depth through dataclass-typed and Optional fields. Excluded "
-             "and refuted by a witness: instances inside List[Base]/Dict[str,Base] get no _type_ key (D16). The repaired defect "
-             "(a subclass whose extra field is init=False) is kept as regression examples. The model is tied to the code by four correspondence ops on "
-             "real classes written to fresh modules in shuffled definition orders and staged process histories, and the property's own statement is "
-             "evaluated on every real observation."),
+    "text": ("Proof, partial with three named gaps. PROVED for all inputs over the model of from_dict/to_dict/__init_subclass__: the "
+             "stable sort by field count + first-superset choice (all fields, init=False included) returns exactly the class whose "
+             "field set identifies it, for EVERY iteration order of the subclass set, hence every definition order / history, any "
+             "hierarchy size (cardinality argument); without identification the chosen class has EXACTLY the serialized field set and "
+             "the load RETURNS an instance with every value kept (never RuntimeError); drop_extra_fields in effect gives exactly the "
+             "base; a subclass adding no field / a load through the own class gives the class loaded through for any drop; these hold "
+             "end to end for flat int instances and, as far as the CLASS is concerned, for arbitrary nested contents provided the "
+             "fields decode; the hypotheses (children extend parents by names, all_subclasses = descendants, D among them) are derived "
+             "from the class table `resolve h` for any list of class statements incl. redeclared fields; flag inheritance one step at "
+             "a time; with save_dc_types the exact class at every depth through dataclass-typed and Optional fields, any load class, "
+             "any drop. EXCLUDED and refuted by witnesses (open findings): every non-empty List/Dict field under save_dc_types (D16: no "
+             "_type_ key is written inside containers — the exclusion is all non-empty containers, wider than the defect), frozen "
+             "classes with an init=False field (setattr raises), nested drop forwarding. SAMPLED only (correspondence + oracle on real "
+             "classes in fresh modules, shuffled definition orders, staged histories, repeated loads of one dict): values of nested "
+             "contents for clauses 1-3, containers, edited dicts, loading through Serializable itself, the closed form of flag "
+             "inheritance over several levels."),
     "note": ("Trusted: Lean kernel + propext/Classical.choice/Quot.sound; dataclasses/importlib; the set iteration order is an "
              "uninterpreted permutation read from the interpreter. Modelled not verified: serializable.py:197-222,704-916, "
              "utils.all_subclasses, the nested-decoding dispatch of decoding.py/encoding.py (int leaves only)."),
